@@ -10,6 +10,7 @@ import (
 	"strconv"
 	"strings"
 	"sync"
+	"sync/atomic"
 	"time"
 
 	"golang.org/x/tools/go/ssa"
@@ -173,6 +174,7 @@ type Exec struct {
 	model     []NDValue
 	pcUnchecked bool
 	fallback  func() *Solver
+	cross     func() *Solver
 }
 
 type Violation struct {
@@ -253,6 +255,26 @@ func (x *Exec) solve(extra *Term, vars []*Term) (SatResult, map[string]uint64) {
 		x.S.Rescued++
 	}
 	return r2, m2
+}
+
+// crossCheck re-decides pc AND extra with a second, independent solver and compares the verdicts.
+func (x *Exec) crossCheck(extra *Term) {
+	r1, _ := x.solve(extra, nil)
+	cs := x.cross()
+	if cs == nil || r1 == Unknown {
+		return
+	}
+	cs.BeginPath()
+	r2, _ := cs.Check(x.pc, extra, nil)
+	cs.EndPath()
+	atomic.AddInt64(&x.P.crossN, 1)
+	if r2 == Unknown {
+		atomic.AddInt64(&x.P.crossUnknown, 1)
+		return
+	}
+	if r1 != r2 {
+		x.end("inconclusive", fmt.Sprintf("solver-disagreement: %s says %s, %s says %s at %s", x.S.Kind, r1, cs.Kind, r2, x.lastPos))
+	}
 }
 
 func (x *Exec) check(extra *Term) SatResult {
